@@ -295,6 +295,81 @@ func SpareIntact(f *fit.File) string {
 	return ""
 }
 
+// AliasArrays rebuilds the array fields of f (slices of non-string elements)
+// as consecutive, overlapping views of one buffer per element type, in the
+// order Encode visits them: slice i has its own length, and its capacity runs
+// on through the slices that follow (what a program gets that cuts its
+// sample buffer into per-message pieces with buf[a:b]). The values of the
+// File do not change. It returns how many slices share a buffer with a
+// neighbour.
+func AliasArrays(f *fit.File) int {
+	groups := map[reflect.Type][]reflect.Value{}
+	var order []reflect.Type
+	for _, s := range append(FileSlots(), Slots(f.Type())...) {
+		for _, m := range SlotMsgs(f, s) {
+			m = reflect.Indirect(m)
+			if !m.IsValid() {
+				continue
+			}
+			for i := 0; i < m.NumField(); i++ {
+				fv := m.Field(i)
+				if fv.Kind() != reflect.Slice || fv.IsNil() || fv.Len() == 0 || !fv.CanSet() || fv.Type().Elem().Kind() == reflect.String {
+					continue
+				}
+				if _, ok := groups[fv.Type()]; !ok {
+					order = append(order, fv.Type())
+				}
+				groups[fv.Type()] = append(groups[fv.Type()], fv)
+			}
+		}
+	}
+	n := 0
+	for _, t := range order {
+		g := groups[t]
+		if len(g) < 2 {
+			continue
+		}
+		total := 0
+		for _, fv := range g {
+			total += fv.Len()
+		}
+		buf := reflect.MakeSlice(t, total, total)
+		off := 0
+		for _, fv := range g {
+			reflect.Copy(buf.Slice(off, off+fv.Len()), fv)
+			off += fv.Len()
+		}
+		off = 0
+		for _, fv := range g {
+			l := fv.Len()
+			fv.Set(buf.Slice(off, off+l)) // capacity runs to the end of buf
+			off += l
+			n++
+		}
+	}
+	return n
+}
+
+// FileValues renders the field values of every message of f (header and
+// checksum left out), for comparing two Files value by value.
+func FileValues(f *fit.File) string {
+	var sb strings.Builder
+	for _, s := range append(FileSlots(), Slots(f.Type())...) {
+		for i, m := range SlotMsgs(f, s) {
+			if !reflect.Indirect(m).IsValid() {
+				continue
+			}
+			fmt.Fprintf(&sb, "%s[%d]:", s.Name, i)
+			for _, v := range MsgVals(m) {
+				sb.WriteString(v.String())
+				sb.WriteByte(' ')
+			}
+			sb.WriteByte('\n')
+		}
+	}
+	return sb.String()
+}
+
 // MsgVals returns the neutral values of all fields of a message struct (or
 // pointer to one).
 func MsgVals(msg reflect.Value) []fitmodel.Val {
